@@ -22,7 +22,8 @@ extern int mpt_path_add(MPT_STRUCT(path) *path, int add)
 	size_t post, len, pre;
 	char *data;
 	
-	if (!(data = (char *) path->base)) {
+	/* without data only an empty element can be added */
+	if (!(data = (char *) path->base) && (add || path->off || path->len)) {
 		return MPT_ERROR(MissingBuffer);
 	}
 	len = path->off + path->len;
@@ -67,7 +68,7 @@ extern int mpt_path_add(MPT_STRUCT(path) *path, int add)
 	}
 	else {
 		/* separator must not be in part */
-		if (memchr(data + len, path->sep, add)) {
+		if (add && memchr(data + len, path->sep, add)) {
 			return MPT_ERROR(BadValue);
 		}
 		if (post < 1U) {
